@@ -50,10 +50,18 @@ func NewUnion(keys ...any) (u Union) {
 	return
 }
 
-func (f Union) hasN(n int64) bool {
+// hasNth returns true if the union selects element i of a collection of the
+// given size, a negative union member counts from the end.
+func (f Union) hasNth(i, size int) bool {
 	for _, x := range f {
-		if ix, ok := x.(int64); ok && ix == n {
-			return true
+		if ix, ok := x.(int64); ok {
+			n := int(ix)
+			if n < 0 {
+				n += size
+			}
+			if n == i {
+				return true
+			}
 		}
 	}
 	return false
@@ -74,7 +82,7 @@ func (f Union) removeOne(value any) (out any, changed bool) {
 	case []any:
 		ns := make([]any, 0, len(tv))
 		for i, v := range tv {
-			if !changed && f.hasN(int64(i)) {
+			if !changed && f.hasNth(i, len(tv)) {
 				changed = true
 			} else {
 				ns = append(ns, v)
@@ -101,7 +109,7 @@ func (f Union) removeOne(value any) (out any, changed bool) {
 	case gen.Array:
 		ns := make(gen.Array, 0, len(tv))
 		for i, v := range tv {
-			if !changed && f.hasN(int64(i)) {
+			if !changed && f.hasNth(i, len(tv)) {
 				changed = true
 			} else {
 				ns = append(ns, v)
@@ -128,7 +136,7 @@ func (f Union) removeOne(value any) (out any, changed bool) {
 	case RemovableIndexed:
 		size := tv.Size()
 		for i := 0; i < size; i++ {
-			if f.hasN(int64(i)) {
+			if f.hasNth(i, size) {
 				tv.RemoveValueAtIndex(i)
 				changed = true
 				break
@@ -155,7 +163,7 @@ func (f Union) removeOne(value any) (out any, changed bool) {
 			cnt := rv.Len()
 			nc := 0
 			for i := 0; i < cnt; i++ {
-				if !changed && f.hasN(int64(i)) {
+				if !changed && f.hasNth(i, cnt) {
 					changed = true
 				} else {
 					nc++
@@ -166,7 +174,7 @@ func (f Union) removeOne(value any) (out any, changed bool) {
 				ni := 0
 				ns := reflect.MakeSlice(rv.Type(), nc, nc)
 				for i := 0; i < cnt; i++ {
-					if !changed && f.hasN(int64(i)) {
+					if !changed && f.hasNth(i, cnt) {
 						changed = true
 					} else {
 						ns.Index(ni).Set(rv.Index(i))
@@ -198,7 +206,7 @@ func (f Union) remove(value any) (out any, changed bool) {
 	case []any:
 		ns := make([]any, 0, len(tv))
 		for i, v := range tv {
-			if f.hasN(int64(i)) {
+			if f.hasNth(i, len(tv)) {
 				changed = true
 			} else {
 				ns = append(ns, v)
@@ -217,7 +225,7 @@ func (f Union) remove(value any) (out any, changed bool) {
 	case gen.Array:
 		ns := make(gen.Array, 0, len(tv))
 		for i, v := range tv {
-			if f.hasN(int64(i)) {
+			if f.hasNth(i, len(tv)) {
 				changed = true
 			} else {
 				ns = append(ns, v)
@@ -236,7 +244,7 @@ func (f Union) remove(value any) (out any, changed bool) {
 	case RemovableIndexed:
 		size := tv.Size()
 		for i := (size - 1); i >= 0; i-- {
-			if f.hasN(int64(i)) {
+			if f.hasNth(i, size) {
 				tv.RemoveValueAtIndex(i)
 				changed = true
 			}
@@ -260,7 +268,7 @@ func (f Union) remove(value any) (out any, changed bool) {
 			cnt := rv.Len()
 			nc := 0
 			for i := 0; i < cnt; i++ {
-				if f.hasN(int64(i)) {
+				if f.hasNth(i, cnt) {
 					changed = true
 				} else {
 					nc++
@@ -271,7 +279,7 @@ func (f Union) remove(value any) (out any, changed bool) {
 				ni := 0
 				ns := reflect.MakeSlice(rv.Type(), nc, nc)
 				for i := 0; i < cnt; i++ {
-					if f.hasN(int64(i)) {
+					if f.hasNth(i, cnt) {
 						changed = true
 					} else {
 						ns.Index(ni).Set(rv.Index(i))
